@@ -123,12 +123,14 @@ def known_index(prop):
 
 # ---------------------------------------------------------------- evidence
 def write_evidence(prop, tier, level, coverage, assumptions, wall_s, violations, extra=None):
-    os.makedirs(os.path.join(VERIF, "evidence"), exist_ok=True)
+    # experiments against seeded / mutated trees must not overwrite the evidence of the registered checks
+    evdir = os.environ.get("VERIF_EVIDENCE_DIR") or os.path.join(VERIF, "evidence")
+    os.makedirs(evdir, exist_ok=True)
     ev = {"property_id": prop, "tier": tier, "seed": seed(), "level": level, "coverage": coverage,
           "assumptions": assumptions, "wall_s": round(wall_s, 2), "violations": violations}
     if extra:
         ev.update(extra)
-    p = os.path.join(VERIF, "evidence", "%s.json" % prop)
+    p = os.path.join(evdir, "%s.json" % prop)
     tmp = p + ".tmp"
     with open(tmp, "w") as f:
         json.dump(ev, f, indent=1, default=str)
